@@ -258,6 +258,23 @@ func ruleEscapeSet(ctx *Ctx, rule string) {
 			hex++
 		}
 	}
+	// or two digits read from a table of the sixteen hex digits
+	for _, fr := range ssaq.Frames(ap) {
+		for _, b := range fr.Fn.Blocks {
+			for _, in := range b.Instrs {
+				var tab ssa.Value
+				switch x := in.(type) {
+				case *ssa.Lookup:
+					tab = x.X
+				case *ssa.Index:
+					tab = x.X
+				}
+				if c, isC := tab.(*ssa.Const); isC && c.Value != nil && c.Value.Kind() == constant.String && len(constant.StringVal(c.Value)) == 16 {
+					hex++
+				}
+			}
+		}
+	}
 	if hex >= 2 {
 		r.Ok(rule, "Append | bytes without a short escape are emitted as \\xHH", q.Pos(ap.Pos()), "two hexDigit calls in the default case")
 	} else {
